@@ -121,10 +121,14 @@ do_close(void)
 	}
 }
 
+static bool no_quiesce; // set by the `nq` line prefix: do not wait for the library to quiesce
+
 static void
 finish_line(void)
 {
-	sim_quiesce();
+	if (!no_quiesce) {
+		sim_quiesce();
+	}
 	ev_flush();
 }
 
@@ -194,8 +198,23 @@ main(void)
 			continue;
 		}
 		alarm(90);
+		// `nq <op ...>`: run the operation but leave its callbacks pending (they run
+		// concurrently with the following lines; events are printed when they happen)
+		no_quiesce = false;
+		if (strcmp(vw[0], "nq") == 0 && vn >= 2) {
+			no_quiesce = true;
+			vn--;
+			memmove(&vw[0], &vw[1], sizeof(vw[0]) * (size_t) vn);
+		}
 		const char *op = vw[0];
 #define IS(s) (strcmp(op, s) == 0)
+		if (IS("delay") && vn == 3) {
+			// delay <offset> <len>: suspend whichever thread runs at scheduler step
+			// now+offset for len steps (delay-bounded schedule exploration)
+			sim_arm_delay(atoi(vw[1]), atoi(vw[2]));
+			printf("ok\n");
+			continue;
+		}
 		if (IS("reset") || IS("fini")) {
 			// `fini`: like reset, but reports the allocator balance after nng_fini
 			lib_fini(IS("fini"));
